@@ -229,8 +229,25 @@ def inject(doc, defect, pick):
         if rl and not isinstance(rl[0], list):
             rl = [rl]
         r = choose(rl)
-        # a rectangle sharing a whole quarter (>= one lattice cell) with r
-        rl = list(rl) + [[r[0] + r[2] / 4, r[1] + r[3] / 4, r[2], r[3]]]
+        variant = next(p) % 3
+        if variant == 0:
+            # a rectangle sharing a whole quarter (>= one lattice cell) with r
+            extra = [[r[0] + r[2] / 4, r[1] + r[3] / 4, r[2], r[3]]]
+        else:
+            # a long strip that shares r's upper right quarter and runs far to the right (or upwards), plus a small rectangle that
+            # lies between the two centres without touching r: three rectangles of which only the first and the last overlap
+            L = 6 * max(r[2], r[3])
+            if variant == 1:
+                extra = [[r[0] + r[2] / 4 + L / 2, r[1] + r[3] / 4 + r[3] / 8, L, r[3] / 4],
+                         [r[0] + r[2] / 2 + L / 4, r[1] - r[3], r[2] / 2, r[3] / 2]]
+            else:
+                extra = [[r[0] + r[2] / 4 + r[2] / 8, r[1] + r[3] / 4 + L / 2, r[2] / 4, L],
+                         [r[0] - r[2], r[1] + r[3] / 2 + L / 4, r[2] / 2, r[3] / 2]]
+            if next(p) % 2:
+                extra = extra[::-1]
+        rl = list(rl) + extra
+        if next(p) % 2:
+            rl = rl[::-1]
         mods[nm]["rectangles"] = rl
         mods[nm].pop("flip", None)
     elif defect == "unknown-attribute":
